@@ -659,7 +659,11 @@ func (st *tunnelClientStream) CloseSend() error {
 
 	select {
 	case <-st.doneSignal:
-		return st.loadDone()
+		// The RPC has already finished, so there is nothing to half-close.
+		// That is not an error of CloseSend: the outcome of the RPC is
+		// reported by RecvMsg (generated CloseAndRecv code returns early
+		// if CloseSend fails and would lose an early response).
+		return nil
 	default:
 		// don't block since we are holding writeMu
 	}
